@@ -152,6 +152,10 @@ func RegisterVrt(module string) {
 		case "int-cvc5":
 			ex.th = thINT
 			ex.prefer = "cvc5-int"
+		case "int-mixed":
+			// branch feasibility on z3 (cheap, many), validity of assertions on cvc5
+			ex.th = thINT
+			ex.preferAssert = "cvc5-int"
 		case "bv-cvc5":
 			ex.th = thBV
 			ex.prefer = "cvc5-bv"
